@@ -71,6 +71,51 @@ def forwarded : List REv → List Int
 /-- running maximum -/
 def maxOf (m : Int) (ts : List Int) : Int := ts.foldl max m
 
+/-! ### the stream an operator receives from a runner -/
+
+/-- what an operator receives: a keyed event (its timestamp) or a watermark (its value **as delivered**) -/
+inductive SEv where
+  | ev (t : Int)
+  | wm (v : Int)
+deriving Repr, DecidableEq
+
+/-- everything `sendOperatorEvent` hands to the operator batcher for a stream, in order: the keyed events of each
+resolved placeholder, and one freshly stamped watermark per watermark placeholder -/
+def sentStream (w : Watermarker) : List REv → List SEv
+  | [] => []
+  | .events ts :: es => ts.map SEv.ev ++ sentStream (ts.foldl Watermarker.advanceTime w) es
+  | .tick :: es => SEv.wm w.current :: sentStream w es
+
+/-- the part of the output stream that can be sent: placeholders are sent in order, and a keyed-event placeholder only
+once its key-event batch was fetched (`resolved` = number of raw events whose batch is complete) -/
+def sentPrefix : Nat → List REv → List REv
+  | _, [] => []
+  | 0, .events _ :: _ => []
+  | r + 1, .events ts :: es => .events ts :: sentPrefix r es
+  | r, .tick :: es => .tick :: sentPrefix r es
+
+def rawCount : List REv → Nat
+  | [] => 0
+  | .events _ :: es => rawCount es + 1
+  | .tick :: es => rawCount es
+
+/-- `EventBatcherParams.MaxSize` (0 means 1) -/
+def batchSize (n : Nat) : Nat := if n = 0 then 1 else n
+
+/-- what the operator has received after the runner's event loop produced the stream `evs`, with key-event batches and
+operator batches of `n` items and no batch timeout: whole batches only -/
+def delivered (n : Nat) (w : Watermarker) (evs : List REv) : List SEv :=
+  let b := batchSize n
+  let s := sentStream w (sentPrefix (rawCount evs / b * b) evs)
+  s.take (s.length / b * b)
+
+/-- the property as the operator sees it: every watermark in the stream equals the largest event timestamp received
+before it (`m` so far) minus (lateness + 1ns) -/
+def streamOK (lat : Int) : Int → List SEv → Prop
+  | _, [] => True
+  | m, .ev t :: s => streamOK lat (max m t) s
+  | m, .wm v :: s => v = m - (lat + 1) ∧ streamOK lat m s
+
 /-! ### upstream map and composite watermark of `TimerRegistry` -/
 
 /-- `map[string]time.Time` as an association list with unique keys (iteration order is irrelevant: only the
